@@ -18,6 +18,8 @@ Modelled, branch for branch:
 * `ProblemModellingController._extract_dosing_regimens` (`rowsToProtocol`, `Protocol.add`)
 * the two model surgeries `PKPDModel._add_dose_rate`, `_add_dose_compartment` on a small
   expression language
+* objects derived from one model object (`copy`, `PredictiveModel(m, …)`, the problem controller,
+  wrappers): cells that own a regimen and handles onto them (`Heap`)
 -/
 namespace ChiModel.Dosing
 
@@ -371,5 +373,89 @@ structure PKState where
 
 def adminStep (s : PKState) (c : AdminCall) : PKState :=
   { s with current := setAdministration s.vanilla c.amount c.depot c.ka c.rate c.direct }
+
+/-! ## objects derived from other objects -/
+
+/-- what a model object holds: never dosed, or the events of its protocol -/
+abbrev Regimen := Option (List Event)
+
+/-- Every object that OWNS a mechanistic model (a `PKPDModel`, the copy a `PredictiveModel` makes of
+    the model it is given, the copy a `ProblemModellingController` makes) is a CELL holding that
+    model's regimen.  The Python objects through which a regimen is chosen or read are HANDLES
+    onto cells (a `ReducedMechanisticModel` around a model, a `PopulationPredictiveModel` /
+    `PosteriorPredictiveModel` / `PriorPredictiveModel` around a predictive model are further
+    handles onto the cell of what they wrap). -/
+structure Heap where
+  nCells : Nat
+  reg : Nat → Regimen
+  nHandles : Nat
+  cell : Nat → Nat
+
+/-- one model holding `r`, one handle onto it -/
+def Heap.init (r : Regimen) : Heap := ⟨1, fun _ => r, 1, fun _ => 0⟩
+
+inductive DeriveOp where
+  /-- `m.copy()`, `PredictiveModel(m, errs[, outputs])`, `ProblemModellingController(m, errs)`,
+      `controller.get_predictive_model()`: a NEW cell carrying what the source holds now, and a
+      handle onto it -/
+  | copy (h : Nat)
+  /-- a wrapper: another handle onto the cell of `h` -/
+  | wrap (h : Nat)
+  /-- `set_dosing_regimen` through handle `h` -/
+  | set (h : Nat) (r : Regimen)
+
+def DeriveOp.handle : DeriveOp → Nat
+  | .copy h => h
+  | .wrap h => h
+  | .set h _ => h
+
+def Heap.step (σ : Heap) : DeriveOp → Heap
+  | .copy h =>
+    { nCells := σ.nCells + 1
+      reg := fun c => if c = σ.nCells then σ.reg (σ.cell h) else σ.reg c
+      nHandles := σ.nHandles + 1
+      cell := fun k => if k = σ.nHandles then σ.nCells else σ.cell k }
+  | .wrap h =>
+    { nCells := σ.nCells
+      reg := σ.reg
+      nHandles := σ.nHandles + 1
+      cell := fun k => if k = σ.nHandles then σ.cell h else σ.cell k }
+  | .set h r =>
+    { nCells := σ.nCells
+      reg := fun c => if c = σ.cell h then r else σ.reg c
+      nHandles := σ.nHandles
+      cell := σ.cell }
+
+def Heap.run (σ : Heap) : List DeriveOp → Heap
+  | [] => σ
+  | op :: rest => (σ.step op).run rest
+
+/-- what handle `h` reports, and what its simulated system receives -/
+def Heap.regimenOf (σ : Heap) (h : Nat) : Regimen := σ.reg (σ.cell h)
+
+/-- every handle points at an existing cell -/
+def Heap.WF (σ : Heap) : Prop := ∀ k, k < σ.nHandles → σ.cell k < σ.nCells
+
+/-- every operation goes through a handle that exists when it is carried out -/
+def Heap.ValidOps : Heap → List DeriveOp → Prop
+  | _, [] => True
+  | σ, op :: rest => op.handle < σ.nHandles ∧ Heap.ValidOps (σ.step op) rest
+
+/-- a regimen is chosen for cell `c` somewhere in the run (through any of its handles) -/
+def Heap.Touches : Heap → List DeriveOp → Nat → Prop
+  | _, [], _ => False
+  | σ, op :: rest, c =>
+    (match op with | .set h _ => σ.cell h = c | _ => False) ∨ Heap.Touches (σ.step op) rest c
+
+/-- NOT what chi does — a derived object that keeps a REFERENCE to the model it was given
+    (`PredictiveModel.__init__` without `mechanistic_model.copy()`): a derivation only adds a
+    handle (`C10_derived_shared_counterexample`) -/
+def Heap.stepShared (σ : Heap) : DeriveOp → Heap
+  | .copy h => σ.step (.wrap h)
+  | op => σ.step op
+
+def Heap.runShared (σ : Heap) : List DeriveOp → Heap
+  | [] => σ
+  | op :: rest => (σ.stepShared op).runShared rest
 
 end ChiModel.Dosing
